@@ -1,5 +1,5 @@
-(* Proofs/FastProofs.v — C12: the fast matcher's stretched candle has the range of the normal matcher's gap-normalised candle,
-   so both consider the same orders; in a chunk with a single candidate both fill it in the same minute. *)
+(* Proofs/FastProofs.v — C12: the fast matcher walks the same gap-normalised minute candles as the normal simulator; in a chunk
+   with a single candidate both fill it in the same minute. *)
 From Coq Require Import ZArith QArith Qcanon Lqa List Bool Lia.
 From JV Require Import Base.Num Base.QcTac Gen.candle Gen.backtest Spec.PathSpec Model.Match Model.FastMatch
   Proofs.CandleProofs Proofs.MatchProofs Proofs.SortProofs Proofs.FollowProofs Proofs.RestingProofs.
@@ -12,18 +12,25 @@ Proof. unfold qmx, qmax. destruct (qltb_spec a b); destruct (qleb_spec a b); try
 Lemma qmn_qmin a b : qmn a b = qmin a b.
 Proof. unfold qmn, qmin. destruct (qltb_spec b a); destruct (qleb_spec a b); try reflexivity; try solve [exfalso; qc]; apply Qc_is_canon; qc. Qed.
 
-(* (1) same range *)
-Theorem same_range prev k : valid k ->
-  c_high (fix_jump QcNum prev k) = c_high (stretch prev k) /\ c_low (fix_jump QcNum prev k) = c_low (stretch prev k).
-Proof.
-  intros Hv. destruct (fix_jump_valid prev k Hv) as (_ & _ & _ & _ & _ & Hh & Hl). cbv zeta in *.
-  unfold stretch. cbn [c_high c_low]. rewrite Hh, Hl, qmx_qmax, qmn_qmin. split; reflexivity.
-Qed.
+(* (1) the gap normalisation reads only the close of the previous candle, and keeps the close of the candle it normalises:
+   normalising along a chain of already normalised candles (the fast simulator's path candles) or along the raw candles (the
+   normal simulator's in-place normalisation) gives the same candles *)
+Lemma fix_jump_close_only (p p' k : cndl) : c_close p = c_close p' -> fix_jump QcNum p k = fix_jump QcNum p' k.
+Proof. intros E. unfold fix_jump. rewrite E. reflexivity. Qed.
+Lemma fix_jump_keeps_close (p k : cndl) : c_close (fix_jump QcNum p k) = c_close k.
+Proof. unfold fix_jump. destruct (ltb QcNum (c_close p) (c_open k)); [reflexivity|]. destruct (ltb QcNum (c_open k) (c_close p)); reflexivity. Qed.
 
-(* (2) hence the same orders are inside the minute *)
-Theorem same_candidates prev k x : valid k -> includes (fix_jump QcNum prev k) x = includes (stretch prev k) x.
+Fixpoint step_candles (prev : option cndl) (ks : list cndl) : list cndl :=
+  match ks with [] => [] | k :: r => (match prev with Some p => fix_jump QcNum p k | None => k end) :: step_candles (Some k) r end.
+
+Theorem path_candles_are_the_normal_simulators ks : forall prevN prev,
+  match prevN, prev with Some q, Some p => c_close q = c_close p | None, None => True | _, _ => False end ->
+  norm_chain prevN ks = step_candles prev ks.
 Proof.
-  intros Hv. destruct (same_range prev k Hv) as [Hh Hl]. unfold includes, candle_includes_price. rewrite Hh, Hl. reflexivity.
+  induction ks as [|k r IH]; intros prevN prev H; cbn [norm_chain step_candles]; [reflexivity|].
+  destruct prevN as [q|], prev as [p|]; try contradiction.
+  - rewrite (fix_jump_close_only q p k H). f_equal. apply IH. apply fix_jump_keeps_close.
+  - f_equal. apply IH. reflexivity.
 Qed.
 
 (* ------------------------------------------------------------------ the chunk's candle is the hull of its minutes *)
@@ -58,20 +65,10 @@ Proof.
   unfold executing in I. apply filter_In in I. apply I.
 Qed.
 
-Lemma stretch_inside real prev k : valid prev -> inside real prev -> inside real k -> inside real (stretch prev k).
-Proof.
-  intros (V1 & V2 & V3 & V4) [A B] [C D]. unfold inside, stretch, qmx, qmn. cbn [c_low c_high].
-  destruct (qltb_spec (c_high k) (c_close prev)); destruct (qltb_spec (c_close prev) (c_low k)); split; qc.
-Qed.
-Lemma stretch_valid prev k : valid k -> valid (stretch prev k).
-Proof.
-  intros (V1 & V2 & V3 & V4). unfold valid, stretch, qmx, qmn. cbn [c_low c_high c_open c_close].
-  destruct (qltb_spec (c_high k) (c_close prev)); destruct (qltb_spec (c_close prev) (c_low k)); repeat split; qc.
-Qed.
 Lemma fix_inside real prev k : valid prev -> valid k -> inside real prev -> inside real k -> inside real (fix_jump QcNum prev k).
 Proof.
-  intros Vp Vk Ip Ik. destruct (same_range prev k Vk) as [Hh Hl]. destruct (stretch_inside real prev k Vp Ip Ik) as [A B].
-  unfold inside. rewrite Hh, Hl. split; assumption.
+  intros (V1 & V2 & V3 & V4) Vk [A B] [Cc D]. destruct (fix_jump_valid prev k Vk) as (_ & _ & _ & _ & _ & Hh & Hl). cbv zeta in *.
+  unfold inside. rewrite Hh, Hl. unfold qmax, qmin. destruct (qleb_spec (c_high k) (c_close prev)); destruct (qleb_spec (c_low k) (c_close prev)); split; qc.
 Qed.
 
 Lemma filter_comm {A} (f g : A -> bool) l : filter f (filter g l) = filter g (filter f l).
@@ -166,45 +163,46 @@ Proof. unfold ids. apply map_app. Qed.
 
 Definition good (k : cndl) : Prop := valid k /\ inside real k.
 Definition good_prev (prev : option cndl) : Prop := match prev with Some p => good p | None => True end.
+Definition same_close (prevN prev : option cndl) : Prop :=
+  match prevN, prev with Some q, Some p => c_close q = c_close p | None, None => True | _, _ => False end.
 
-Lemma chunks_agree fuel : forall ks prev i w cands fl sl fl' wf sl' ws,
-  Forall good ks -> good_prev prev -> (length (hullset w) <= 1)%nat -> cands = hullset w -> ids fl = ids sl ->
-  fchunk react (S (S fuel)) real prev i ks w cands fl = FDone fl' wf ->
+Lemma chunks_agree fuel : forall ks prevN prev i w cands fl sl fl' wf sl' ws,
+  Forall good ks -> good_prev prev -> same_close prevN prev -> (length (hullset w) <= 1)%nat -> cands = hullset w -> ids fl = ids sl ->
+  fchunk react (S (S fuel)) real i (norm_chain prevN ks) w cands fl = FDone fl' wf ->
   step_chunk (S (S fuel)) prev i ks w sl = Some (sl', ws) ->
   ids fl' = ids sl' /\ wf = ws.
 Proof.
-  induction ks as [|k r IH]; intros prev i w cands fl sl fl' wf sl' ws Hg Hp Hl Hc Hi HF HS.
-  - cbn [fchunk step_chunk] in *. injection HF as <- <-. injection HS as <- <-. split; [exact Hi|reflexivity].
+  induction ks as [|k r IH]; intros prevN prev i w cands fl sl fl' wf sl' ws Hg Hp Hsc Hl Hc Hi HF HS.
+  - cbn [norm_chain fchunk step_chunk] in *. injection HF as <- <-. injection HS as <- <-. split; [exact Hi|reflexivity].
   - apply Forall_cons_iff in Hg. destruct Hg as [[Vk Ik] Hg].
-    set (f := match prev with Some p => stretch p k | None => k end).
     set (s := match prev with Some p => fix_jump QcNum p k | None => k end).
-    assert (Vf : valid f) by (unfold f; destruct prev; [apply stretch_valid; exact Vk|exact Vk]).
-    assert (If : inside real f) by (unfold f; destruct prev as [p|]; [destruct Hp as [Vp Ip]; apply stretch_inside; assumption|exact Ik]).
+    assert (Ef : match prevN with Some q => fix_jump QcNum q k | None => k end = s).
+    { unfold s. destruct prevN as [q|], prev as [p|]; try contradiction; [apply fix_jump_close_only; exact Hsc|reflexivity]. }
     assert (Vs : valid s) by (unfold s; destruct prev as [p|]; [apply (fix_jump_valid p k Vk)|exact Vk]).
     assert (Is : inside real s) by (unfold s; destruct prev as [p|]; [destruct Hp as [Vp Ip]; apply fix_inside; assumption|exact Ik]).
-    assert (Same : forall x, includes s x = includes f x) by (intros x; unfold s, f; destruct prev; [apply same_candidates; exact Vk|reflexivity]).
-    cbn [fchunk step_chunk] in HF, HS. fold f in HF. fold s in HS.
+    assert (Hsc' : same_close (Some s) (Some k)) by (unfold same_close, s; destruct prev; [apply fix_jump_keeps_close|reflexivity]).
+    cbn [norm_chain fchunk step_chunk] in HF, HS. rewrite Ef in HF. fold s in HS.
     destruct (hullset w) as [|o [|o2 rest]] eqn:Hh; [| |cbn in Hl; lia].
-    + subst cands. rewrite (fast_minute_none (S fuel) r i f w fl Hh) in HF. rewrite (step_minute_none (S fuel) s w Is Hh) in HS.
+    + subst cands. rewrite (fast_minute_none (S fuel) _ i s w fl Hh) in HF. rewrite (step_minute_none (S fuel) s w Is Hh) in HS.
       cbn [map] in HS. rewrite app_nil_r in HS.
       assert (L0 : (length (hullset w) <= 1)%nat) by (rewrite Hh; cbn; lia).
-      exact (IH (Some k) (S i) w [] fl sl fl' wf sl' ws Hg (conj Vk Ik) L0 (eq_sym Hh) Hi HF HS).
-    + subst cands. pose proof (fast_minute_one fuel r i f w o fl Vf If Hh) as Ff. pose proof (step_minute_one fuel s w o Vs Is Hh) as Fs.
-      rewrite Same in Fs. destruct (includes f o).
+      exact (IH (Some s) (Some k) (S i) w [] fl sl fl' wf sl' ws Hg (conj Vk Ik) Hsc' L0 (eq_sym Hh) Hi HF HS).
+    + subst cands. pose proof (fast_minute_one fuel (norm_chain (Some s) r) i s w o fl Vs Is Hh) as Ff. pose proof (step_minute_one fuel s w o Vs Is Hh) as Fs.
+      destruct (includes s o).
       * destruct Ff as (a & b & _ & Ff). destruct Fs as (a' & b' & _ & Fs). rewrite Ff in HF. rewrite Fs in HS. cbn [map fst snd] in HS.
         rewrite (react_indep o a' a) in HS.
         assert (Hw : hullset (react o a (remove_order o w)) = []) by (apply react_outside; apply hullset_remove; exact Hh).
         assert (L0 : (length (hullset (react o a (remove_order o w))) <= 1)%nat) by (rewrite Hw; cbn; lia).
         assert (Hi' : ids (fl ++ [(o, a, i)]) = ids (sl ++ [(o, a', i)])) by (rewrite !ids_app, Hi; reflexivity).
-        exact (IH (Some k) (S i) _ [] _ _ fl' wf sl' ws Hg (conj Vk Ik) L0 (eq_sym Hw) Hi' HF HS).
+        exact (IH (Some s) (Some k) (S i) _ [] _ _ fl' wf sl' ws Hg (conj Vk Ik) Hsc' L0 (eq_sym Hw) Hi' HF HS).
       * rewrite Ff in HF. rewrite Fs in HS. cbn [map] in HS. rewrite app_nil_r in HS.
         assert (L0 : (length (hullset w) <= 1)%nat) by (rewrite Hh; cbn; lia).
-        exact (IH (Some k) (S i) w [o] fl sl fl' wf sl' ws Hg (conj Vk Ik) L0 (eq_sym Hh) Hi HF HS).
+        exact (IH (Some s) (Some k) (S i) w [o] fl sl fl' wf sl' ws Hg (conj Vk Ik) Hsc' L0 (eq_sym Hh) Hi HF HS).
 Qed.
 
-Lemma fchunk_nothing fuel : forall ks prev i w fl, hullset w = [] -> fchunk react (S fuel) real prev i ks w [] fl = FDone fl w.
+Lemma fchunk_nothing fuel : forall nks i w fl, hullset w = [] -> fchunk react (S fuel) real i nks w [] fl = FDone fl w.
 Proof.
-  induction ks as [|k r IH]; intros prev i w fl H; cbn [fchunk]; [reflexivity|].
+  induction nks as [|k r IH]; intros i w fl H; cbn [fchunk]; [reflexivity|].
   rewrite (fast_minute_none fuel r i _ w fl H). apply IH. exact H.
 Qed.
 End OneCandidate.
@@ -225,10 +223,10 @@ Proof.
   { pose proof (hull ks real Hreal) as Hh. rewrite Forall_forall in *. intros k Hk. split; [apply Hv|apply Hh]; exact Hk. }
   unfold fast_chunk in HF. rewrite Hreal in HF. change (executing real w) with (hullset real w) in HF.
   destruct (hullset real w) as [|o [|o2 rest]] eqn:Hh; [| |cbn in Hl; lia].
-  - rewrite <- (fchunk_nothing react real (S fuel) ks None 0 w [] Hh) in HF.
-    apply (chunks_agree react real Hind Hout fuel ks None 0 w [] [] [] fl wf sl ws Hg I); [rewrite Hh; cbn; lia|symmetry; exact Hh|reflexivity|exact HF|exact HS].
+  - rewrite <- (fchunk_nothing react real (S fuel) (norm_chain None ks) 0 w [] Hh) in HF.
+    apply (chunks_agree react real Hind Hout fuel ks None None 0 w [] [] [] fl wf sl ws Hg I I); [rewrite Hh; cbn; lia|symmetry; exact Hh|reflexivity|exact HF|exact HS].
   - cbn [length Nat.ltb Nat.leb] in HF.
-    apply (chunks_agree react real Hind Hout fuel ks None 0 w [o] [] [] fl wf sl ws Hg I); [rewrite Hh; cbn; lia|symmetry; exact Hh|reflexivity|exact HF|exact HS].
+    apply (chunks_agree react real Hind Hout fuel ks None None 0 w [o] [] [] fl wf sl ws Hg I I); [rewrite Hh; cbn; lia|symmetry; exact Hh|reflexivity|exact HF|exact HS].
 Qed.
 
 (* ------------------------------------------------------------------ the higher-timeframe windows (generated read lists) *)
